@@ -529,6 +529,6 @@ func plainGrouper() sizes.RefGrouper {
 
 func init() {
 	Registry["C19"] = &Check{Level: "exploration", Worker: c19Worker, QuickBudget: 70 * time.Second, ThoroughBudget: 10 * time.Minute,
-		Rule: "a special-byte alphabet (space, double and single quote, backslash, TAB, LF, CR, 0x01, DEL, invalid UTF-8, multi-byte UTF-8, ':', leading '-', '[1]', printf verbs, braces, U+2028) in four positions (alone, start, middle, end) and long names (255, 256, 4096, 65494, 65495; 70000 in thorough) placed in: directory names, file names (all single placements and a product at reduced alphabet), reference names (only those git check-ref-format accepts; the harness rule is validated against real git on the whole alphabet in every run), ROOT spellings, refgroup symbols and display names; scanned in-process in the three name styles. JSON v1 and v2 must pass an independent strict RFC 8259 validator and have the plain-name key set (per-refgroup members excepted); the table must equal byte-for-byte the text constructed from the scan's own citations (numbered 1..k by first citation, equal texts sharing a number, every footnote cited); descriptions are judged as in C08. non-trivial = every placement",
+		Rule:        "a special-byte alphabet (space, double and single quote, backslash, TAB, LF, CR, 0x01, DEL, invalid UTF-8, multi-byte UTF-8, ':', leading '-', '[1]', printf verbs, braces, U+2028) in four positions (alone, start, middle, end) and long names (255, 256, 4096, 65494, 65495; 70000 in thorough) placed in: directory names, file names (all single placements and a product at reduced alphabet), reference names (only those git check-ref-format accepts; the harness rule is validated against real git on the whole alphabet in every run), ROOT spellings, refgroup symbols and display names; scanned in-process in the three name styles. JSON v1 and v2 must pass an independent strict RFC 8259 validator and have the plain-name key set (per-refgroup members excepted); the table must equal byte-for-byte the text constructed from the scan's own citations (numbered 1..k by first citation, equal texts sharing a number, every footnote cited); descriptions are judged as in C08. non-trivial = every placement",
 		Assumptions: []string{"reference names are limited to what git itself can hold", "footnote texts are taken from the scan result (Path.String()) and the table is compared with the constructive expected text"}}
 }
